@@ -5,7 +5,8 @@
 (* sentinel directory tree that encloses the output directory.              *)
 (* Events:                                                                   *)
 (*   assoc {mode, ts}              association established, negotiated TS    *)
-(*   store {req, cls, inst}        a complete C-STORE request was sent; its  *)
+(*   store {req, ts, cls, inst}    a complete C-STORE request was sent on a  *)
+(*                                 context whose negotiated TS is ts; its    *)
 (*                                 data set carries SOP class cls / instance *)
 (*                                 inst (short ids), is unique per request   *)
 (*   fs    {where, readable, ds, meta_ts, meta_cls, meta_inst}               *)
@@ -40,12 +41,12 @@ Mark(ok) == bad' = IF ok \/ (bad # <<>> /\ bad[Len(bad)] = cl) \/ Len(bad) >= 30
 Note(ok) == extra' = IF ok \/ Len(extra) >= 200 THEN extra ELSE Append(extra, l)
 TAssoc == Ev("assoc") /\ ts' = R.ts /\ sent' = <<>> /\ cl' = l /\ acked' = {} /\ filed' = {} /\ UNCHANGED <<bad, extra>>
 TStore == /\ Ev("store") /\ R.req = Len(sent) + 1
-          /\ sent' = Append(sent, [cls |-> R.cls, inst |-> R.inst])
+          /\ sent' = Append(sent, [cls |-> R.cls, inst |-> R.inst, ts |-> R.ts])
           /\ UNCHANGED <<ts, cl, bad, acked, filed, extra>>
 FileOk(f) == /\ f.where = "out"
              /\ f.readable
              /\ f.ds \in 1..Len(sent)
-             /\ f.meta_ts = ts
+             /\ f.meta_ts = sent[f.ds].ts       \* the transfer syntax negotiated for THAT request's context
              /\ f.meta_cls = sent[f.ds].cls
              /\ f.meta_inst = sent[f.ds].inst
 TFs == /\ Ev("fs") /\ Mark(FileOk(R))
